@@ -160,11 +160,11 @@ func (vc *FuncVC) preRegisterLogs() {
 				fn := mc.Fn.(*ssa.Function)
 				for _, w := range vc.watches {
 					pk, pn := splitWord(w.Pattern)
-					if pk != "closure" || !(pn == fn.String() || pn == vc.P.shortName(fn.String()) || qualify(vc.C.Pkg, pn) == fn.String()) {
+					if pk != "closure" || !(pn == fn.String() || pn == vc.P.shortName(fn.String()) || qualify(vc.C.Pkg, pn) == fn.String() || pn == fn.Name()) {
 						continue
 					}
 					for i, b := range mc.Bindings {
-						comp := vc.logComp("", w.Label, fmt.Sprintf("a%d", i), SInt)
+						comp := vc.logComp("", w.Label, fmt.Sprintf("a%d", i), vc.sortOf(b.Type()))
 						vc.logTypes[comp] = b.Type()
 					}
 					vc.closureOf[w.Label] = fn
@@ -221,7 +221,7 @@ func (vc *FuncVC) logClosure(x *ssa.MakeClosure, t Term) {
 	fn := x.Fn.(*ssa.Function)
 	for _, w := range vc.watches {
 		pk, pn := splitWord(w.Pattern)
-		if pk != "closure" || !(pn == fn.String() || pn == vc.P.shortName(fn.String()) || qualify(vc.C.Pkg, pn) == fn.String()) {
+		if pk != "closure" || !(pn == fn.String() || pn == vc.P.shortName(fn.String()) || qualify(vc.C.Pkg, pn) == fn.String() || pn == fn.Name()) {
 			continue
 		}
 		var args []Term
@@ -1526,11 +1526,16 @@ func (vc *FuncVC) escapingClosureWrites() (comps []string, total bool) {
 							}
 							continue
 						}
-						name, _, _ := vc.calleeName(x.Common())
+						name, _, callee := vc.calleeName(x.Common())
 						if con := vc.P.CS.Funcs[name]; con != nil && (con.Pure || (con.HasAssgn && len(con.Assigns) == 0)) {
 							continue
 						}
 						if _, ok := vc.libCall0(name); ok {
+							continue
+						}
+						// calls that leave the repository (interface methods, func values, library
+						// functions) have the effect of any opaque call: nothing protected is written
+						if callee == nil || !vc.P.inRepoPkg(pkgOf(callee)) {
 							continue
 						}
 						vc.cloTotal = true
